@@ -11,6 +11,7 @@ import (
 
 	"github.com/getkin/kin-openapi/openapi3"
 	"github.com/oapi-codegen/oapi-codegen/v2/pkg/codegen"
+	"github.com/oapi-codegen/oapi-codegen/v2/pkg/util"
 )
 
 // C05 — parameter wire format follows the OpenAPI style rules.
@@ -248,6 +249,72 @@ func c05Tables(ctx *Ctx) (defaults [][5]interface{}, sites []c05Site, notes []st
 			if n != 1 {
 				notes = append(notes, fmt.Sprintf("site-count:%s:%s has %d runtime call sites", fw, sh.Desc(), n))
 			}
+		}
+		sites = append(sites, ss...)
+	}
+	// 3. a specification split across two documents that both have a parameter component of one name with another
+	// explode: the main document refers to its own (form, explode=false) and takes over, by reference, a path item of the
+	// other document whose operation refers to that document's component (no style, no explode)
+	ms, mnotes, merr := c05MultiDocSites(ctx)
+	if merr != nil {
+		return nil, nil, nil, merr
+	}
+	sites = append(sites, ms...)
+	notes = append(notes, mnotes...)
+	return
+}
+
+func c05MultiDocSites(ctx *Ctx) (sites []c05Site, notes []string, err error) {
+	arr := PType{"arrI", "arr", J{"type": "array", "items": J{"type": "integer"}}}
+	own := PShape{ID: 9002, Loc: "query", Style: "form", Explode: "false", T: arr, Required: true, Mode: "schema"}
+	foreign := PShape{ID: 9001, Loc: "query", T: arr, Required: true, Mode: "schema"}
+	ok204 := J{"204": J{"description": "nothing"}}
+	ref := []interface{}{J{"$ref": "#/components/parameters/Ids"}}
+	common := J{"openapi": "3.0.3", "info": J{"title": "common", "version": "1"},
+		"paths":      J{"/shared": J{"get": J{"operationId": "P9001", "parameters": ref, "responses": ok204}}},
+		"components": J{"parameters": J{"Ids": J{"name": "v", "in": "query", "required": true, "schema": arr.Schema}}}}
+	// /local sorts before /shared: the main document's component is described first
+	api := J{"openapi": "3.0.3", "info": J{"title": "api", "version": "1"},
+		"paths":      J{"/local": J{"get": J{"operationId": "P9002", "parameters": ref, "responses": ok204}}, "/shared": J{"$ref": "common.json#/paths/~1shared"}},
+		"components": J{"parameters": J{"Ids": J{"name": "v", "in": "query", "required": true, "style": "form", "explode": false, "schema": arr.Schema}}}}
+	dir := filepath.Join(ctx.Work, "c05md")
+	if err = os.MkdirAll(dir, 0o755); err != nil {
+		return
+	}
+	defer os.RemoveAll(dir)
+	_ = os.WriteFile(filepath.Join(dir, "common.json"), []byte(Canon(common)), 0o644)
+	_ = os.WriteFile(filepath.Join(dir, "api.json"), []byte(Canon(api)), 0o644)
+	byID := map[int]PShape{own.ID: own, foreign.ID: foreign}
+	for side, fw := range append([]string{"client"}, allFrameworks...) {
+		spec, lerr := util.LoadSwagger(filepath.Join(dir, "api.json"))
+		if lerr != nil {
+			return nil, nil, lerr
+		}
+		var cfg codegen.Configuration
+		cfg.PackageName = "main"
+		cfg.OutputOptions.SkipFmt = true
+		cfg.ImportMapping = map[string]string{"common.json": "verifrun/c05md/common"}
+		if fw == "client" {
+			cfg.Generate.Client = true
+		} else {
+			setFramework(&cfg, fw)
+		}
+		src, gerr := generate(spec, cfg)
+		if gerr != nil {
+			notes = append(notes, fmt.Sprintf("generr:multidoc:%s:%v", fw, gerr))
+			continue
+		}
+		f, _, perr := parseGo(src)
+		if perr != nil {
+			notes = append(notes, fmt.Sprintf("parseerr:multidoc:%s:%v", fw, perr))
+			continue
+		}
+		ss, unknown := extractSites(f, side, byID)
+		for _, u := range unknown {
+			notes = append(notes, "unknown-site:multidoc:"+fw+":"+u)
+		}
+		if len(ss) != 2 {
+			notes = append(notes, fmt.Sprintf("site-count:multidoc:%s: %d runtime call sites for the two operations", fw, len(ss)))
 		}
 		sites = append(sites, ss...)
 	}
